@@ -64,6 +64,8 @@ FUNCTIONS = [
     ("json_object.c", "json_object_get_string_len"),
     ("json_object.c", "_json_object_get_string_len"),
     ("arraylist.c", "array_list_get_idx"),
+    ("json_tokener.c", "json_tokener_reset"),
+    ("json_tokener.c", "json_tokener_reset_level"),
 ]
 
 
